@@ -4,6 +4,7 @@
 From Coq Require Import ZArith List.
 From Copia Require Import Model.Checksum Model.Delta.
 From Copia Require Model.Hub Model.HubExec Model.HubSeq.
+From Copia Require Import Model.Bincode Model.Protocol.
 Import ListNotations.
 Require Extraction.
 Require Import ExtrOcamlBasic.
@@ -30,4 +31,7 @@ Extraction "model.ml"
   rc_new_ck rc_roll_ck rc_push_ck frc_new_ck frc_roll_ck frc_push_ck
   spec_digest_exec sums
   m_signature m_delta m_patch m_greedy lits out_len
-  HubExec.hub_exec HubExec.wire_exec HubSeq.refused HubExec.sync_exec.
+  HubExec.hub_exec HubExec.wire_exec HubSeq.refused HubExec.sync_exec
+  header_encode_ck header_decode read_from write_message read_message
+  encode_message encode_signature encode_delta decode_message decode_signature decode_delta
+  run_delta_top run_patch_top mt_code.
